@@ -783,6 +783,7 @@ class Oracle:
         self.fired = set()
         self.balance = True         # this connection counts for the disconnect-once balance
         self.failed_connect = False
+        self.acc_log = []           # the view's accepted map after every operation
 
     # ---- reporting
     def bad(self, clause, text):
@@ -996,6 +997,7 @@ class Oracle:
         self.opi += 1
         self.nonconformant = False
         if self.dead:
+            self.acc_log.append(None)
             return
         v = self.v
         k = op['op']
@@ -1185,6 +1187,8 @@ class Oracle:
         """state clauses, after every operation"""
         v = self.v
         snap = rec['snap']
+        self.acc_log.append(None if (self.dead or self.nonconformant) else
+                            sorted([k, canon(x)] for k, x in v.acc.items()))
         if self.nonconformant:
             self.dead = True
         if self.dead:
@@ -1347,6 +1351,7 @@ def run_check(ctx, profile, props, nontrivial_rule, is_nontrivial):
     nontrivial = set()
     samples = []
     validated = 0
+    inside = inside_strict = 0
     for ci, (case, recs, orc) in enumerate(zip(cases, all_recs, oracles)):
         start, n = spans[ci]
         ans = answers[start + 1:start + n]
@@ -1357,6 +1362,30 @@ def run_check(ctx, profile, props, nontrivial_rule, is_nontrivial):
         region_at = getattr(orc.v, 'region_at', None)
         diff = compare(case, recs, ans, upto=region_at)
         validated += len(recs) if region_at is None else region_at
+        # the Lean spec (hypotheses of the theorems) against the oracle's own view of the server
+        lean_out = next((i for i, a in enumerate(ans) if not a['spec']['in']), None)
+        py_out = region_at if not orc.dead else getattr(orc, 'dead_opi', region_at)
+        if lean_out is None:
+            inside += 1
+            inside_strict += all(a['spec']['strict'] for a in ans)
+        spec_diff = None
+        if lean_out != py_out and not orc.dead:
+            spec_diff = 'the Lean spec leaves the quantifier at op %r, the oracle at op %r' % (lean_out, py_out)
+        else:
+            for i, a in enumerate(ans):
+                if lean_out is not None and i >= lean_out:
+                    break
+                sp = a['spec']
+                if sp['notes'] != sp['model_notes']:
+                    spec_diff = 'op %d: model notifications %r, spec %r' % (i, sp['model_notes'], sp['notes'])
+                    break
+                la = sorted([C.w2s(k), json.dumps(x)] for k, x in sp['acc'])
+                if i < len(orc.acc_log) and orc.acc_log[i] is not None and orc.acc_log[i] != la:
+                    spec_diff = 'op %d: accepted map of the Lean spec %r, of the oracle %r' % (i, la, orc.acc_log[i])
+                    break
+        if spec_diff and not orc.fail:
+            ctx.violation('correspondence', 'spec (theorem hypotheses) and oracle bookkeeping differ: ' + spec_diff,
+                          {'case_index': ci, 'case': case_json(case)}, no_input=True)
         for sig, text in orc.known.items():
             ctx.known(sig, text)
         if orc.fail:
@@ -1379,6 +1408,8 @@ def run_check(ctx, profile, props, nontrivial_rule, is_nontrivial):
     ctx.coverage.update({
         'evaluations': evals, 'distinct_nontrivial': len(nontrivial), 'rule': nontrivial_rule,
         'samples': samples, 'traces_validated_against_impl': validated, 'cases': len(cases),
+        'histories_inside_theorem_hypotheses': inside,
+        'histories_inside_strict_hypotheses': inside_strict,
     })
     ctx.assumptions += [
         'engine.io client contract (DESIGN §4): only _connect_polling and _send_packet of the real '
